@@ -55,7 +55,7 @@ def group_of_rows(obj, f, X):
         if cv is None:
             out.append(member_of.get(core.canon(obj.str_nan)) if obj.str_nan is not None else None)
         elif quant:
-            l = next((l for l in leaders if float(v) <= l), None)
+            l = next((l for l in leaders if v <= l), None)
             out.append(None if l is None else core.canon(l))
         else:
             out.append(member_of.get(cv))
